@@ -1,0 +1,13 @@
+//go:build verif
+
+package logging
+
+// VerifFatalHook, when set, is called with the logger and the message of a
+// fatal log call right before the process exits. Only compiled with the verif tag.
+var VerifFatalHook func(l *Logger, msg string)
+
+func verifOnFatal(l *Logger, msg string) {
+	if VerifFatalHook != nil {
+		VerifFatalHook(l, msg)
+	}
+}
